@@ -445,6 +445,10 @@ def _crc16_back16(t):
     return s
 
 
+class _AppAddress(Address):
+    """What an application deriving from Address looks like."""
+
+
 class AddrWireWorld(World):
     name = 'WIRE-TEXT'
     chunk = 4
@@ -654,7 +658,7 @@ class AddrWireWorld(World):
                 ctx.op(o)
                 self._subst(ctx, a, rop, text, o['pos'], o['char'], record=False, times=o.get('times', 1))
 
-    ORIGINS = ['tuple', 'raw', 'copy', 'cell', 'anycast-set', 'anycast-cell', 'tl-dict-edited', 'reassigned']
+    ORIGINS = ['tuple', 'raw', 'copy', 'cell', 'anycast-set', 'anycast-cell', 'tl-dict-edited', 'reassigned', 'subclass']
 
     def _mk(self, aop):
         """The address object under test, obtained by the route aop['origin'] names ('equal addresses hash equally' is
@@ -669,6 +673,8 @@ class AddrWireWorld(World):
                 return Address('%d:%s' % (wc, acc.hex()))
             if origin == 'copy':
                 return Address(Address((wc, acc)))
+            if origin == 'subclass':
+                return _AppAddress((wc, acc))      # an application's own subclass (adds nothing): still that address
             if origin == 'tl-dict-edited':
                 # the caller asked for the TL account-id dict and edited ITS dict (to build a request for another account)
                 a = Address((wc, acc))
